@@ -659,8 +659,35 @@ def fixedrep_stream(ctx, count, repl=""):
     return out
 
 
+def capalt_stream(ctx, count, repl="[$1|$2|$3]"):
+    """an alternation all of whose branches are bare capturing groups, followed by a term that can
+    fail, on inputs where an earlier start position gets into one branch and fails and a later one
+    succeeds through another: what a failed attempt leaves in the capture arrays must not show"""
+    rng = random.Random(ctx.seed * 982451653 + 5)
+    out = []
+    while len(out) < count:
+        a, b, c, d = rng.sample("abcdx", 4)
+        g1 = rng.choice([("chr", a), ("q", ("chr", a), 1, None, True)])
+        alt = ("alt", [("grp", g1), ("grp", ("chr", b))] + ([("grp", ("chr", d))] if rng.random() < 0.3 else []))
+        core = rng.choice([("nc", alt), ("q", ("nc", alt), 1, None, True), ("nc", alt)])
+        tail = rng.choice([("chr", c), ("nc", ("alt", [("chr", c), ("grp", ("chr", d))]))])
+        parts = [core, tail]
+        if rng.random() < 0.3:
+            parts.insert(0, ("chr", "x"))
+        ast = ("seq", parts)
+        if rng.random() < 0.2:
+            ast = ("alt", [ast, ("grp", ("chr", d))])
+        pat = gen.pp(ast)
+        pre = "x" if parts[0] == ("chr", "x") else ""
+        inputs = [pre + a + " " + pre + b + c, pre + a * 3 + " " + pre + b + c, pre + b + " " + pre + a + c, a + " " + d,
+                  pre + a + "-" + pre + b + "-" + pre + (d if len(alt[1]) > 2 else b) + c, pre + b + c, ""]
+        for inp in inputs:
+            out.append(("xpath", rng.choice(["", "", "i"]), pat, inp, repl))
+    return out
+
+
 def slice_C05(ctx):
-    cases = mk_cases(arbitrary_stream(ctx) + precond_stream(ctx, ctx.n(2000, 20000)), "mrta")
+    cases = mk_cases(arbitrary_stream(ctx) + precond_stream(ctx, ctx.n(2000, 20000)) + capalt_stream(ctx, ctx.n(1500, 15000)), "mrta")
     code, model, dis = run_slice(cases)
     violations, nontrivial = [], set()
     hist = collections.Counter()
@@ -1955,6 +1982,45 @@ def slice_C20(ctx):
             cid += 2
         laws[law] += 1
     rng = ctx.rng
+    # third stream (own generator state): quantified zero-width groups, with an earlier brace
+    # quantifier in the pattern; besides the rewriting laws, the symbol and the brace spelling of
+    # one quantifier (r? / r{0,1}, r* / r{0,}, r+ / r{1,}: instances of the listed expansion laws)
+    class _Braces:
+        def random(self):
+            return 1.0
+    rng_z = random.Random(ctx.seed * 67867967 + 20)
+    for _ in range(ctx.n(500, 5000)):
+        zw = rng_z.choice([("nc", ("alt", [("bol",), ("eol",)])), ("nc", ("seq", [("bol",), ("eol",)])), ("grp", ("bol",)),
+                           ("grp", ("eol",)), ("nc", ("alt", [("bol",), ("chr", "a")])), ("grp", ("seq", [])),
+                           ("nc", ("alt", [("eol",), ("chr", "b")]))])
+        mn, mx = rng_z.choice([(1, None), (0, 1), (0, None), (1, 2), (2, None), (0, 2)])
+        parts = [("q", zw, mn, mx, rng_z.random() < 0.8), ("chr", rng_z.choice("ab"))]
+        if rng_z.random() < 0.6:
+            parts.insert(0, ("q", ("chr", rng_z.choice("ab")), *rng_z.choice([(1, 2), (2, 2), (1, None), (2, 3), (0, 2)]), True))
+        if rng_z.random() < 0.3:
+            parts.insert(0, ("chr", rng_z.choice("ab")))
+        ast = ("seq", parts)
+        pat = gen.pp(ast)
+        # (greedy quantifiers only: the listed expansion laws are about r{n,m}, not r{n,m}?)
+        variants = ([(gen.pp(ast, "xpath", _Braces()), "quantifier symbol = brace spelling", True)]
+                    if all(x[4] for x in parts if x[0] == "q") else [])
+        rw = rewrite_once(rng_z, ast, "ab")
+        if rw is not None:
+            try:
+                variants.append((gen.pp(rw[0]), rw[1], rw[2]))
+            except Exception:
+                pass
+        fl = rng_z.choice(["", "", "m"])
+        for pat2, law, order_ok in variants:
+            if pat2 == pat:
+                continue
+            for inp in ["", "a", "b", "ba", "ab", "bba", "a\nb", "aXa".replace("X", "b")] :
+                a = Case(cid, "xpath", fl, pat, inp, "<$0>", "mra", tag=law)
+                b = Case(cid + 1, "xpath", fl, pat2, inp, "<$0>", "mra", tag=law)
+                cases += [a, b]
+                pairs.append((str(cid), str(cid + 1), law, order_ok))
+                cid += 2
+            laws[law] += 1
     code, model, dis = run_slice(cases)
     spec = spec_match([c for c in cases])
     byid = {c.cid: c for c in cases}
